@@ -1,6 +1,68 @@
+(** C19 — complexes, linkage classes, weak reversibility and deficiency of model/C19_Model.v (the model of
+    synkit/CRN/Props/deficiency.py after the repair of the edge walk).
+    Vocabulary (defined in proof/C17_Proof.v, proof/C19_Complexes.v, proof/C19_Linkage.v):
+      amount s sd        coefficient of species s in the side (multiset) sd
+      side_vec net iso sd  the side as a vector over the sorted species list
+      dpath arcs u w     directed path u -> ... -> w along the arcs of the complex graph
+      upath arcs u w     undirected path (each step follows an arc forwards or backwards)
+      nn                 N.of_nat (complex indices are stored as N in the classes) *)
 From Coq Require Import List NArith ZArith.
-From SK Require Import model.C17_Model model.C19_Model proof.C19_Proof.
+From SK Require Import lib.Reach model.C17_Model model.C19_Model proof.C17_Proof proof.C19_Proof proof.C19_Complexes proof.C19_Linkage.
+Import ListNotations.
 
+(** (1) complexes = the distinct reactant and product multisets: the list has no duplicate, a vector is in it iff it is
+        the reactant or the product side of some reaction, and two sides give the same vector iff they are the same
+        multiset (same coefficient for every species). *)
+Theorem C19_complexes : forall (net : list rxn) (iso : list str), NoDup (map rid net) ->
+  let cs := fst (complex_graph net iso) in
+  NoDup cs /\
+  (forall v, In v cs <-> exists e, In e net /\ (v = side_vec net iso (rlhs e) \/ v = side_vec net iso (rrhs e))) /\
+  (forall ro1 e1 ro2 e2, In e1 net -> In e2 net ->
+     (side_vec net iso (side_of ro1 e1) = side_vec net iso (side_of ro2 e2) <->
+      forall s, amount s (side_of ro1 e1) = amount s (side_of ro2 e2))).
+Proof. exact complexes_spec. Qed.
+Print Assumptions C19_complexes.
+
+(** (1b) the complex graph: an arc u -> v (no duplicates) iff some reaction has reactant complex number u and product
+         complex number v. *)
+Theorem C19_complex_graph : forall (net : list rxn) (iso : list str), NoDup (map rid net) ->
+  let cs := fst (complex_graph net iso) in
+  let arcs := snd (complex_graph net iso) in
+  NoDup arcs /\
+  forall u v, In (u, v) arcs <->
+    exists e, In e net /\ nth_error cs u = Some (side_vec net iso (rlhs e)) /\ nth_error cs v = Some (side_vec net iso (rrhs e)).
+Proof. exact complex_arcs_spec. Qed.
+Print Assumptions C19_complex_graph.
+
+(** (2) linkage classes = connected components of the undirected complex graph: the classes partition the complex
+        indices 0..k-1 (their concatenation has no duplicate and covers exactly the indices; no class is empty), two
+        complexes lie in the same class iff an undirected path joins them; n_linkage is the number of classes.
+        (The saturation fuel k+1 of the model always suffices: a closure that ran out of fuel would be empty.) *)
+Theorem C19_linkage : forall (net : list rxn) (iso : list str),
+  let cs := fst (complex_graph net iso) in
+  let arcs := snd (complex_graph net iso) in
+  let k := length cs in
+  let L := linkage_classes arcs k in
+  n_linkage (compute_summary net iso 0) = length L /\
+  NoDup (concat L) /\
+  (forall y, In y (concat L) <-> exists i, i < k /\ y = nn i) /\
+  (forall c, In c L -> NoDup c /\ c <> []) /\
+  (forall i j, i < k -> j < k -> ((exists c, In c L /\ In (nn i) c /\ In (nn j) c) <-> upath arcs i j)).
+Proof. exact net_linkage. Qed.
+Print Assumptions C19_linkage.
+
+(** (3) weak reversibility: the verdict is true iff every linkage class is strongly connected, iff every reaction arc
+        y -> y' has a directed return path y' -> ... -> y. *)
+Theorem C19_weak_rev : forall (net : list rxn) (iso : list str) (r : nat),
+  let arcs := snd (complex_graph net iso) in
+  let k := length (fst (complex_graph net iso)) in
+  (weakly_rev (compute_summary net iso r) = true <->
+   forall c, In c (linkage_classes arcs k) -> forall i j, In (nn i) c -> In (nn j) c -> dpath arcs i j) /\
+  (weakly_rev (compute_summary net iso r) = true <-> forall u v, In (u, v) arcs -> dpath arcs v u).
+Proof. exact net_weak_rev. Qed.
+Print Assumptions C19_weak_rev.
+
+(** (4a) the reported deficiency is n - l - r for the rank r handed to the summary. *)
 Theorem C19_deficiency_formula : forall net iso r,
   let s := compute_summary net iso r in
   deficiency s = (Z.of_nat (n_complexes s) - Z.of_nat (n_linkage s) - Z.of_nat (stoich_rank s))%Z.
